@@ -1109,10 +1109,61 @@ def known_tags(c, e, bad):
             break
         cursor = start + ((p["bitpos"] or 0) + bl + 7) // 8
         end = max(end, cursor)
+    if padded_tail_terminated(ps) and e is not None and e.get("impl", [1])[0] == 0 and isinstance(e.get("value"), dict):
+        # ... and the only difference between what was encoded and what is read back are zeros appended to values
+        dec = cc.impl_decode(c.obj, bytes(e["impl"][1]))
+        if dec[0] == 0 and only_zero_padded(expected_values(ps, e["value"], e.get("req")), cc.unw_value(dec[1])) == 1:
+            tags.add("terminated-object-before-padding")
     tags.add(bad.split(":")[0].split("(")[0].strip()[:60])
     for k in desc_features(c.params):
         tags.add(k)
     return tags
+
+
+def only_zero_padded(want, got):
+    """1: got is want with zeros appended to at least one byte field / string; 0: equal (as far as want goes); -1: other"""
+    if isinstance(want, dict) and isinstance(got, dict):
+        rs = [only_zero_padded(v, got[k]) if k in got else -1 for k, v in want.items()]
+    elif isinstance(want, (list, tuple)) and isinstance(got, (list, tuple)) and len(want) == len(got):
+        rs = [only_zero_padded(a, b) for a, b in zip(want, got)]
+    elif isinstance(want, (bytes, bytearray)) and isinstance(got, (bytes, bytearray)):
+        w, g = bytes(want), bytes(got)
+        return 0 if w == g else (1 if g.startswith(w) and not g[len(w):].strip(b"\x00") else -1)
+    elif isinstance(want, str) and isinstance(got, str):
+        return 0 if want == got else (1 if got.startswith(want) and not got[len(want):].strip("\x00") else -1)
+    else:
+        return 0 if want == got else -1
+    return -1 if -1 in rs else (1 if 1 in rs else 0)
+
+
+def padded_tail_terminated(params):
+    """the last object of a padded container (STATIC-FIELD item, structure with BYTE-SIZE) is a terminated MIN-MAX-LENGTH
+    object: at the end of the PDU the encoder omits the terminator, and the padding is read as part of the value
+    (recorded finding unterminated-value-before-padding)"""
+    def tail_terminated(st):
+        if not st["params"]:
+            return False
+        kd = st["params"][-1]["kind"]
+        if kd["k"] not in ("value", "physconst"):
+            return False
+        d = kd["dop"]
+        if d["k"] == "simple":
+            return d["dct"]["k"] == "minmax" and d["dct"]["term"] in (0, 1)
+        if d["k"] == "struct":
+            return tail_terminated(d)
+        return False
+
+    def dop_has(d):
+        if d["k"] == "struct":
+            return (d["bs"] is not None and tail_terminated(d)) or padded_tail_terminated(d["params"])
+        if d["k"] == "static":
+            return tail_terminated(d["s"]) or dop_has(d["s"])
+        if d["k"] in ("dynlen", "eop", "endmarker"):
+            return dop_has(d["s"])
+        if d["k"] == "mux":
+            return any(c["s"] is not None and dop_has(c["s"]) for c in d["cases"] + ([d["dflt"]] if d["dflt"] is not None else []))
+        return False
+    return any(p["kind"]["k"] in ("value", "physconst") and dop_has(p["kind"]["dop"]) for p in params)
 
 
 # ---------------------------------------------------------------------------
